@@ -54,6 +54,18 @@ end Tab
 
 abbrev M (β : Type) (n m : Nat) := Tab β n m
 
+/-- a vector as data (same reason as `Tab`: a stored `Fin n → β` closure is re-evaluated at every index) -/
+structure Vec (β : Type) (n : Nat) where
+  arr : Array β
+  size_eq : arr.size = n
+
+namespace Vec
+def get (v : Vec β n) (i : Fin n) : β := v.arr[i.val]'(by rw [v.size_eq]; exact i.isLt)
+def ofFn (f : Fin n → β) : Vec β n := ⟨Array.ofFn f, by simp⟩
+@[simp] theorem get_ofFn (f : Fin n → β) (i : Fin n) : (ofFn f).get i = f i := by
+  unfold get ofFn; simp
+end Vec
+
 /-- `np.dot(A, B)` -/
 def mmul [Add β] [Mul β] [Zero β] (A : M β n m) (B : M β m k) : M β n k :=
   Tab.ofFn (fun i j => vsum (fun l => A.get i l * B.get l j))
